@@ -70,15 +70,16 @@ example : encodeUtf16BE [0x41, 0x4E2D, 0x1F600, 0x10FFFF] =
 
 /-! ## Numerals (ISO 32000-1 Table 159) -/
 
-/-- `format_int_roman` is the subtractive-notation numeral for every `0 < n < 4000`
-(kernel-evaluated sweep over the whole domain, against the regenerated ROMAN_* tables). -/
+/-- `format_int_roman` is the subtractive-notation numeral for EVERY `n ≥ 1`: the three low digits
+by a kernel-evaluated sweep against the regenerated ROMAN_* tables, the thousands (any number of
+them: 4000 ↦ `mmmm`) in general.  (Round 6; the code asserted `value < 4000` before the fix.) -/
+theorem roman_correct_all (n : Nat) (h0 : 0 < n) :
+    formatIntRoman (n : Int) = .ok (Spec.Labels.romanAux Spec.Labels.romanTable n) :=
+  formatIntRoman_all n h0
+
 theorem roman_correct (n : Nat) (h0 : 0 < n) (h1 : n < 4000) :
-    formatIntRoman (n : Int) = .ok (Spec.Labels.romanAux Spec.Labels.romanTable n) := by
-  have h := all_range_lift romanOk_all n h1
-  unfold romanOk at h
-  have hn : (n == 0) = false := by simp; omega
-  rw [hn, Bool.false_or] at h
-  exact eq_of_isOk h
+    formatIntRoman (n : Int) = .ok (Spec.Labels.romanAux Spec.Labels.romanTable n) :=
+  roman_correct_all n h0
 
 /-- Sanity of the specification itself: reading the numeral back gives `n`. -/
 theorem roman_value (n : Nat) (h1 : n < 4000) :
@@ -87,10 +88,11 @@ theorem roman_value (n : Nat) (h1 : n < 4000) :
   unfold romanValueOk at h
   exact eq_of_beq h
 
-/-- Outside `0 < value < 4000` the code raises `AssertionError` (modelled, not totalised away). -/
-theorem roman_outside (v : Int) (h : v ≤ 0 ∨ 4000 ≤ v) : formatIntRoman v = .error .assertion := by
+/-- For `value ≤ 0` the code raises `AssertionError` (modelled, not totalised away); since the
+round-6 fix there is no upper bound. -/
+theorem roman_outside (v : Int) (h : v ≤ 0) : formatIntRoman v = .error .assertion := by
   unfold formatIntRoman
-  have : ¬ (0 < v ∧ v < 4000) := by omega
+  have : ¬ (0 < v) := by omega
   simp [this]
 
 /-- FULL STATEMENT for styles A/a: the letters numeral of every positive value is the one of
@@ -154,14 +156,14 @@ theorem roman_translated (v : Int) : genFormatIntRoman v = formatIntRoman v :=
   PdfVerif.Lemmas.LabelsGen.genFormatIntRoman_eq v
 
 open PdfVerif.LabelsGen in
-/-- Hence the translated code writes the subtractive-notation numeral for every `0 < n < 4000`,
-never exhausts its pass budget there, and raises AssertionError everywhere else. -/
-theorem roman_translated_correct (n : Nat) (h0 : 0 < n) (h1 : n < 4000) :
+/-- Hence the translated code writes the subtractive-notation numeral for EVERY `n ≥ 1`, never
+exhausts its pass budget, and raises AssertionError for `n ≤ 0`. -/
+theorem roman_translated_correct (n : Nat) (h0 : 0 < n) :
     genFormatIntRoman (n : Int) = .ok (Spec.Labels.romanAux Spec.Labels.romanTable n) := by
-  rw [roman_translated]; exact roman_correct n h0 h1
+  rw [roman_translated]; exact roman_correct_all n h0
 
 open PdfVerif.LabelsGen in
-theorem roman_translated_outside (v : Int) (h : v ≤ 0 ∨ 4000 ≤ v) :
+theorem roman_translated_outside (v : Int) (h : v ≤ 0) :
     genFormatIntRoman v = .error .assertion := by
   rw [roman_translated]; exact roman_outside v h
 
@@ -196,7 +198,10 @@ example : (PdfVerif.LabelsGen.genFormatIntRoman 3949).toOption = some [109, 109,
   decide +kernel
 example : (PdfVerif.LabelsGen.genFormatIntRoman 1678).toOption = some [109, 100, 99, 108, 120, 120, 118, 105, 105, 105] := by
   decide +kernel
-example : (PdfVerif.LabelsGen.genFormatIntRoman 4000).toOption = none := by decide +kernel
+example : (PdfVerif.LabelsGen.genFormatIntRoman 4000).toOption = some [109, 109, 109, 109] := by decide +kernel
+example : (formatIntRoman 14999).toOption = some ((List.replicate 14 109) ++ [99, 109, 120, 99, 105, 120]) := by
+  decide +kernel
+example : (PdfVerif.LabelsGen.genFormatIntRoman 0).toOption = none := by decide +kernel
 example : (PdfVerif.LabelsGen.liftErr (PdfVerif.Gen.LabelCode.format_int_roman_body 9 3 [])).toOption = none := by
   decide +kernel
 example : (PdfVerif.LabelsGen.liftErr (PdfVerif.Gen.LabelCode.format_int_roman_body 47 1 [[105]])).toOption
@@ -282,7 +287,7 @@ theorem C17_label_strict (t : NumTree LabelDict) (n : Nat)
     simp [withZero]
 
 
-/-- The model's numeral is the ISO numeral: decimal, roman (upper/lower) for `0 < v < 4000`,
+/-- The model's numeral is the ISO numeral: decimal, roman (upper/lower) for every `v > 0`,
 letters for `v ≤ 26` (beyond that the statement is false, see `alpha_cex`). -/
 theorem numeral_partial (style : Option Bytes) (v : Int) (num : Text)
     (h : numeral style v = some num)
@@ -294,7 +299,7 @@ theorem numeral_partial (style : Option Bytes) (v : Int) (num : Text)
     split at hr
     · rename_i hc
       have hv : v = (v.toNat : Int) := by omega
-      rw [hv, roman_correct v.toNat hc.1 hc.2]
+      rw [hv, roman_correct_all v.toNat hc]
       simpa using hr
     · simp at hr
   have halpha : 0 < v → v ≤ 26 → ∀ r, alpha v.toNat = some r → formatIntAlpha v = .ok r := by
@@ -342,8 +347,8 @@ theorem numeral_partial (style : Option Bytes) (v : Int) (num : Text)
     simp at h
 
 /-- FULL STATEMENT for page labels: on every conforming tree, the label the code generates for
-page `i` is the one ISO 32000-1 12.4.2 defines (whenever that is defined: known style, roman
-value below 4000, prefix a valid text string).  False on the pinned code because of the letters
+page `i` is the one ISO 32000-1 12.4.2 defines (whenever that is defined: known style, positive
+roman value, prefix a valid text string).  False on the pinned code because of the letters
 numeral (`C17_label_cex`); `C17_label_partial` proves it with values of the letter styles ≤ 26. -/
 def C17_label_statement : Prop :=
   ∀ (t : NumTree LabelDict) (n i : Nat) (l : Text), i < n →
